@@ -356,7 +356,7 @@ fn is_ip_literal(s: &str) -> Option<IpAddr> {
     s.parse().ok()
 }
 
-fn run_conn_op(rt: &tokio::runtime::Runtime, cx: &Ctx, op: &ConnOp, rep: &mut Report) -> String {
+fn run_conn_op(rt: &tokio::runtime::Runtime, cx: &Ctx, op: &ConnOp, rep: &mut T3Sink) -> String {
     let log = Rc::new(RefCell::new(vec![]));
     let resolver = match &op.res {
         None => Resolver::default(),
@@ -548,6 +548,825 @@ fn run_conn_op(rt: &tokio::runtime::Runtime, cx: &Ctx, op: &ConnOp, rep: &mut Re
     format!("lk={lk} res={res} acc={}", fmt_acc(&acc))
 }
 
+
+// ------------------------------------------------------------------------------------------------
+// certificates (rcgen, at run time)
+// ------------------------------------------------------------------------------------------------
+mod pki {
+    use std::sync::{Arc, OnceLock};
+
+    use openssl::{
+        pkey::PKey,
+        ssl::{SslAcceptor, SslConnector, SslMethod, SslVerifyMode, SslVersion},
+        x509::X509,
+    };
+    use rcgen::{BasicConstraints, CertificateParams, DistinguishedName, DnType, IsCa, KeyPair, KeyUsagePurpose};
+    use rustls_pki_types::{CertificateDer, PrivateKeyDer, PrivatePkcs8KeyDer};
+    use tokio_rustls::rustls::{self, ClientConfig, RootCertStore, ServerConfig};
+
+    pub struct Ca {
+        pub cert: rcgen::Certificate,
+        pub key: KeyPair,
+    }
+    pub struct Leaf {
+        pub cert_der: Vec<u8>,
+        pub cert_pem: String,
+        pub key_der: Vec<u8>,
+        pub key_pem: String,
+    }
+
+    pub fn new_ca(cn: &str) -> Ca {
+        let mut p = CertificateParams::new(Vec::<String>::new()).unwrap();
+        p.is_ca = IsCa::Ca(BasicConstraints::Unconstrained);
+        p.key_usages = vec![KeyUsagePurpose::KeyCertSign, KeyUsagePurpose::DigitalSignature, KeyUsagePurpose::CrlSign];
+        let mut dn = DistinguishedName::new();
+        dn.push(DnType::CommonName, cn);
+        p.distinguished_name = dn;
+        let key = KeyPair::generate().unwrap();
+        let cert = p.self_signed(&key).unwrap();
+        Ca { cert, key }
+    }
+
+    pub fn new_leaf(ca: &Ca, sans: &[String]) -> Leaf {
+        let mut p = CertificateParams::new(sans.to_vec()).unwrap();
+        let mut dn = DistinguishedName::new();
+        dn.push(DnType::CommonName, "verif leaf");
+        p.distinguished_name = dn;
+        let key = KeyPair::generate().unwrap();
+        let cert = p.signed_by(&key, &ca.cert, &ca.key).unwrap();
+        Leaf { cert_der: cert.der().to_vec(), cert_pem: cert.pem(), key_der: key.serialize_der(), key_pem: key.serialize_pem() }
+    }
+
+    pub fn provider() -> Arc<rustls::crypto::CryptoProvider> {
+        Arc::new(rustls::crypto::aws_lc_rs::default_provider())
+    }
+
+    pub fn rustls_server(leaf: &Leaf) -> ServerConfig {
+        ServerConfig::builder_with_provider(provider())
+            .with_safe_default_protocol_versions()
+            .unwrap()
+            .with_no_client_auth()
+            .with_single_cert(
+                vec![CertificateDer::from(leaf.cert_der.clone())],
+                PrivateKeyDer::Pkcs8(PrivatePkcs8KeyDer::from(leaf.key_der.clone())),
+            )
+            .unwrap()
+    }
+
+    pub fn openssl_server(leaf: &Leaf) -> SslAcceptor {
+        let mut b = SslAcceptor::mozilla_intermediate_v5(SslMethod::tls()).unwrap();
+        b.set_certificate(&X509::from_pem(leaf.cert_pem.as_bytes()).unwrap()).unwrap();
+        b.set_private_key(&PKey::private_key_from_pem(leaf.key_pem.as_bytes()).unwrap()).unwrap();
+        b.build()
+    }
+
+    /// rustls client trusting `ca`; `v12` restricts it to TLS 1.2
+    pub fn rustls_client(ca: &Ca, v12: bool) -> Arc<ClientConfig> {
+        let mut roots = RootCertStore::empty();
+        roots.add(CertificateDer::from(ca.cert.der().to_vec())).unwrap();
+        let versions: &[&rustls::SupportedProtocolVersion] = if v12 { &[&rustls::version::TLS12] } else { &[&rustls::version::TLS13] };
+        let mut cfg = ClientConfig::builder_with_provider(provider())
+            .with_protocol_versions(versions)
+            .unwrap()
+            .with_root_certificates(roots)
+            .with_no_client_auth();
+        // every handshake is a full handshake: no state may leak from one case into the next
+        cfg.resumption = rustls::client::Resumption::disabled();
+        Arc::new(cfg)
+    }
+
+    /// OpenSSL client trusting `ca`
+    pub fn openssl_client(ca: &Ca, v12: bool) -> SslConnector {
+        let mut b = SslConnector::builder(SslMethod::tls()).unwrap();
+        b.cert_store_mut().add_cert(X509::from_der(ca.cert.der()).unwrap()).unwrap();
+        b.set_verify(SslVerifyMode::PEER);
+        if v12 {
+            b.set_max_proto_version(Some(SslVersion::TLS1_2)).unwrap();
+        } else {
+            b.set_min_proto_version(Some(SslVersion::TLS1_3)).unwrap();
+        }
+        b.build()
+    }
+
+    pub struct AccPki {
+        pub ca: Ca,
+        pub rustls_server: Arc<ServerConfig>,
+        pub openssl_server: SslAcceptor,
+    }
+    // rcgen's key type is not Sync-friendly everywhere; keep only what the acceptor cases need
+    pub struct Shared {
+        pub rustls_server: Arc<ServerConfig>,
+        pub openssl_server: SslAcceptor,
+        pub rustls_c13: Arc<ClientConfig>,
+        pub rustls_c12: Arc<ClientConfig>,
+        pub openssl_c13: SslConnector,
+        pub openssl_c12: SslConnector,
+    }
+    static SHARED: OnceLock<Shared> = OnceLock::new();
+    pub fn shared() -> &'static Shared {
+        SHARED.get_or_init(|| {
+            let ca = new_ca("verif acc ca");
+            let leaf = new_leaf(&ca, &["localhost".to_string()]);
+            Shared {
+                rustls_server: Arc::new(rustls_server(&leaf)),
+                openssl_server: openssl_server(&leaf),
+                rustls_c13: rustls_client(&ca, false),
+                rustls_c12: rustls_client(&ca, true),
+                openssl_c13: openssl_client(&ca, false),
+                openssl_c12: openssl_client(&ca, true),
+            }
+        })
+    }
+}
+
+// ------------------------------------------------------------------------------------------------
+// C18: acceptor services under a paused tokio clock, polled by hand
+// ------------------------------------------------------------------------------------------------
+mod acc {
+    use std::{
+        future::Future,
+        pin::Pin,
+        sync::{
+            atomic::{AtomicBool, Ordering},
+            Arc,
+        },
+        task::{Context, Poll, Wake, Waker},
+        time::Duration,
+    };
+
+    use actix_rt::net::{ActixStream, Ready};
+    use actix_service::{Service, ServiceFactory};
+    use actix_tls::accept::{openssl as a_ossl, rustls_0_23 as a_rustls, TlsError};
+    use tokio::io::{AsyncRead, AsyncReadExt, AsyncWrite, AsyncWriteExt, DuplexStream, ReadBuf};
+
+    use super::pki;
+    use vh::Rng;
+
+    /// in-memory transport handed to the acceptor (`tokio::io::duplex` end)
+    pub struct Dx(pub DuplexStream);
+    impl AsyncRead for Dx {
+        fn poll_read(mut self: Pin<&mut Self>, cx: &mut Context<'_>, buf: &mut ReadBuf<'_>) -> Poll<std::io::Result<()>> {
+            Pin::new(&mut self.0).poll_read(cx, buf)
+        }
+    }
+    impl AsyncWrite for Dx {
+        fn poll_write(mut self: Pin<&mut Self>, cx: &mut Context<'_>, buf: &[u8]) -> Poll<std::io::Result<usize>> {
+            Pin::new(&mut self.0).poll_write(cx, buf)
+        }
+        fn poll_flush(mut self: Pin<&mut Self>, cx: &mut Context<'_>) -> Poll<std::io::Result<()>> {
+            Pin::new(&mut self.0).poll_flush(cx)
+        }
+        fn poll_shutdown(mut self: Pin<&mut Self>, cx: &mut Context<'_>) -> Poll<std::io::Result<()>> {
+            Pin::new(&mut self.0).poll_shutdown(cx)
+        }
+    }
+    impl ActixStream for Dx {
+        fn poll_read_ready(&self, _: &mut Context<'_>) -> Poll<std::io::Result<Ready>> {
+            Poll::Ready(Ok(Ready::READABLE))
+        }
+        fn poll_write_ready(&self, _: &mut Context<'_>) -> Poll<std::io::Result<Ready>> {
+            Poll::Ready(Ok(Ready::WRITABLE))
+        }
+    }
+
+    /// a waker that only records that it was woken
+    pub struct Flag(pub AtomicBool);
+    impl Wake for Flag {
+        fn wake(self: Arc<Self>) {
+            self.0.store(true, Ordering::SeqCst);
+        }
+        fn wake_by_ref(self: &Arc<Self>) {
+            self.0.store(true, Ordering::SeqCst);
+        }
+    }
+    impl Flag {
+        pub fn new() -> Arc<Flag> {
+            Arc::new(Flag(AtomicBool::new(false)))
+        }
+        pub fn get(&self) -> bool {
+            self.0.load(Ordering::SeqCst)
+        }
+        pub fn clear(&self) {
+            self.0.store(false, Ordering::SeqCst)
+        }
+    }
+
+    /// poll outside tokio's cooperative budget (many manual polls happen between two awaits)
+    fn pollu<T>(w: &Waker, mut f: impl FnMut(&mut Context<'_>) -> Poll<T> + Unpin) -> Poll<T> {
+        let mut cx = Context::from_waker(w);
+        let mut u = tokio::task::unconstrained(std::future::poll_fn(|cx| f(cx)));
+        Pin::new(&mut u).poll(&mut cx)
+    }
+
+    fn noop() -> Waker {
+        Waker::from(Flag::new())
+    }
+
+    /// everything currently readable from a duplex end (never blocks); second component: EOF seen
+    fn drain(ds: &mut DuplexStream) -> (Vec<u8>, bool) {
+        let mut out = vec![];
+        let w = noop();
+        let mut tmp = vec![0u8; 1 << 16];
+        loop {
+            let mut rb = ReadBuf::new(&mut tmp);
+            match pollu(&w, |cx| Pin::new(&mut *ds).poll_read(cx, &mut rb)) {
+                Poll::Ready(Ok(())) => {
+                    if rb.filled().is_empty() {
+                        return (out, true);
+                    }
+                    out.extend_from_slice(rb.filled());
+                }
+                Poll::Ready(Err(_)) => return (out, true),
+                Poll::Pending => return (out, false),
+            }
+        }
+    }
+
+    /// write all bytes into a duplex end (buffers are large enough never to block); false if it could not
+    fn push(ds: &mut DuplexStream, mut bytes: &[u8]) -> bool {
+        let w = noop();
+        while !bytes.is_empty() {
+            match pollu(&w, |cx| Pin::new(&mut *ds).poll_write(cx, bytes)) {
+                Poll::Ready(Ok(n)) if n > 0 => bytes = &bytes[n..],
+                _ => return false,
+            }
+        }
+        true
+    }
+
+    pub type BoxIo = Box<dyn IoBoth>;
+    pub trait IoBoth: AsyncRead + AsyncWrite + Unpin {}
+    impl<T: AsyncRead + AsyncWrite + Unpin> IoBoth for T {}
+
+    #[derive(Clone, Copy, PartialEq, Debug)]
+    pub enum Outcome {
+        Ok,
+        TlsErr,
+        Timeout,
+    }
+    impl Outcome {
+        pub fn s(self) -> &'static str {
+            match self {
+                Outcome::Ok => "ok",
+                Outcome::TlsErr => "tlserr",
+                Outcome::Timeout => "timeout",
+            }
+        }
+    }
+
+    type SFut = Pin<Box<dyn Future<Output = Result<BoxIo, Outcome>>>>;
+    type CFut = Pin<Box<dyn Future<Output = Result<BoxIo, String>>>>;
+
+    fn classify<E>(e: TlsError<E, std::convert::Infallible>) -> Outcome {
+        match e {
+            TlsError::Timeout => Outcome::Timeout,
+            TlsError::Tls(_) => Outcome::TlsErr,
+            TlsError::Service(never) => match never {},
+        }
+    }
+
+    pub struct ConnRec {
+        sfut: Option<SFut>,
+        flag: Arc<Flag>,
+        hs: Option<DuplexStream>, // harness end of the server's transport
+        cfut: Option<CFut>,
+        hd: DuplexStream, // harness end of the client's transport
+        cli: String,
+        held: Vec<u8>,
+        sstream: Option<BoxIo>,
+        cstream: Option<BoxIo>,
+        // bookkeeping used by the T3 oracle (observed facts, not the model)
+        deadline_ms: u64,
+        produced: u32,
+        delivered: u32,
+        seen_at_last_poll: u32,
+        spoiled: bool, // garbage injected or transport closed
+        polled: bool,
+        /// no (virtual) time has ever passed while this future was waiting for a poll it was owed
+        diligent: bool,
+        pub result: Option<Outcome>,
+        dropped: bool,
+    }
+
+    pub struct AccCase {
+        rsvc: a_rustls::AcceptorService,
+        osvc: a_ossl::AcceptorService,
+        max: usize,
+        tmo_ms: u64,
+        conns: Vec<ConnRec>,
+        rflag: Arc<Flag>,
+        start: tokio::time::Instant,
+        pub t3: Vec<String>,
+        pub notes: Vec<String>,
+        last_ready_pending: bool,
+    }
+
+    fn new_client(cli: &str, io: DuplexStream) -> Option<CFut> {
+        let sh = pki::shared();
+        match cli {
+            "r13" | "r12" => {
+                let cfg = if cli == "r13" { sh.rustls_c13.clone() } else { sh.rustls_c12.clone() };
+                let name = rustls_pki_types::ServerName::try_from("localhost").unwrap();
+                let fut = tokio_rustls::TlsConnector::from(cfg).connect(name, io);
+                Some(Box::pin(async move { fut.await.map(|s| Box::new(s) as BoxIo).map_err(|e| e.to_string()) }))
+            }
+            "o13" | "o12" => {
+                let c = if cli == "o13" { &sh.openssl_c13 } else { &sh.openssl_c12 };
+                let ssl = c.configure().ok()?.into_ssl("localhost").ok()?;
+                let mut st = tokio_openssl::SslStream::new(ssl, io).ok()?;
+                Some(Box::pin(async move {
+                    match Pin::new(&mut st).connect().await {
+                        Ok(()) => Ok(Box::new(st) as BoxIo),
+                        Err(e) => Err(e.to_string()),
+                    }
+                }))
+            }
+            _ => None,
+        }
+    }
+
+    impl AccCase {
+        /// `max = None`: leave the crate's default limit in place (must be the first acceptor case of the process)
+        pub fn new(max: Option<usize>, tmo_ms: Option<u64>, default_max: usize, default_tmo_ms: u64) -> AccCase {
+            let sh = pki::shared();
+            if let Some(m) = max {
+                actix_tls::accept::max_concurrent_tls_connect(m);
+            }
+            let mut ra = a_rustls::Acceptor::new((*sh.rustls_server).clone());
+            let mut oa = a_ossl::Acceptor::new(sh.openssl_server.clone());
+            if let Some(t) = tmo_ms {
+                ra.set_handshake_timeout(Duration::from_millis(t));
+                oa.set_handshake_timeout(Duration::from_millis(t));
+            }
+            // first use of the thread-local counter on this (fresh) thread: it takes the current limit
+            let w = noop();
+            let rsvc = match pollu(&w, |cx| Pin::new(&mut ServiceFactory::<Dx>::new_service(&ra, ())).poll(cx)) {
+                Poll::Ready(Ok(s)) => s,
+                _ => unreachable!(),
+            };
+            let osvc = match pollu(&w, |cx| Pin::new(&mut ServiceFactory::<Dx>::new_service(&oa, ())).poll(cx)) {
+                Poll::Ready(Ok(s)) => s,
+                _ => unreachable!(),
+            };
+            AccCase {
+                rsvc,
+                osvc,
+                max: max.unwrap_or(default_max),
+                tmo_ms: tmo_ms.unwrap_or(default_tmo_ms),
+                conns: vec![],
+                rflag: Flag::new(),
+                start: tokio::time::Instant::now(),
+                t3: vec![],
+                notes: vec![],
+                last_ready_pending: false,
+            }
+        }
+
+        fn now_ms(&self) -> u64 {
+            (tokio::time::Instant::now() - self.start).as_millis() as u64
+        }
+        fn alive(&self) -> usize {
+            self.conns.iter().filter(|c| c.sfut.is_some()).count()
+        }
+        fn rf(&self) -> u8 {
+            self.rflag.get() as u8
+        }
+
+        fn op_ready(&mut self) -> String {
+            self.rflag.clear();
+            let w = Waker::from(self.rflag.clone());
+            // both services share the per-thread counter; ask both and require agreement
+            let a = pollu(&w, |cx| Service::<Dx>::poll_ready(&self.rsvc, cx)).is_ready();
+            let b = pollu(&w, |cx| Service::<Dx>::poll_ready(&self.osvc, cx)).is_ready();
+            if a != b {
+                self.t3.push(format!("rustls and openssl acceptor services on one thread disagree on readiness: {a} vs {b}"));
+            }
+            // property: not ready exactly while the handshakes in progress have reached the maximum
+            let inprog = self.alive();
+            if a != (inprog < self.max) {
+                self.t3.push(format!("poll_ready is {} with {inprog} handshakes in progress and max {}", if a { "Ready" } else { "Pending" }, self.max));
+            }
+            self.last_ready_pending = !a;
+            if a { "ready".into() } else { "pending".into() }
+        }
+
+        fn op_call(&mut self, lib: &str, cli: &str) -> Option<String> {
+            let (sa, hs) = tokio::io::duplex(1 << 22);
+            let (cd, hd) = tokio::io::duplex(1 << 22);
+            let cfut = new_client(cli, cd)?;
+            let sfut: SFut = match lib {
+                "r" => {
+                    let f = self.rsvc.call(Dx(sa));
+                    Box::pin(async move { f.await.map(|s| Box::new(s) as BoxIo).map_err(classify) })
+                }
+                "o" => {
+                    let f = self.osvc.call(Dx(sa));
+                    Box::pin(async move { f.await.map(|s| Box::new(s) as BoxIo).map_err(classify) })
+                }
+                _ => return None,
+            };
+            self.conns.push(ConnRec {
+                sfut: Some(sfut),
+                flag: Flag::new(),
+                hs: Some(hs),
+                cfut: Some(cfut),
+                hd,
+                cli: cli.to_string(),
+                held: vec![],
+                sstream: None,
+                cstream: None,
+                deadline_ms: self.now_ms() + self.tmo_ms,
+                produced: 0,
+                delivered: 0,
+                seen_at_last_poll: 0,
+                spoiled: false,
+                polled: false,
+                diligent: true,
+                result: None,
+                dropped: false,
+            });
+            Some(format!("ok {}", self.conns.len() - 1))
+        }
+
+        /// the guard of a finished / dropped handshake must have been released: a parked service task is woken
+        fn after_release(&mut self, was_pending: bool, inprog_before: usize, what: &str) {
+            if was_pending && inprog_before == self.max && !self.rflag.get() {
+                self.t3.push(format!("service task parked at the limit was not woken when a handshake ended ({what})"));
+            }
+        }
+
+        fn poll_one(&mut self, k: usize) -> Option<Outcome> {
+            let now = self.now_ms();
+            let inprog = self.alive();
+            let was_pending = self.last_ready_pending && !self.rflag.get();
+            let c = &mut self.conns[k];
+            c.flag.clear();
+            let w = Waker::from(c.flag.clone());
+            let fut = c.sfut.as_mut().unwrap();
+            let r = pollu(&w, |cx| fut.as_mut().poll(cx));
+            c.polled = true;
+            c.seen_at_last_poll = c.delivered;
+            // server -> client bytes travel immediately
+            if let Some(hs) = c.hs.as_mut() {
+                let (bytes, _) = drain(hs);
+                if !bytes.is_empty() {
+                    push(&mut c.hd, &bytes);
+                }
+            }
+            // the client has sent its whole handshake and is still there to read the server's last flight
+            let complete = c.delivered >= 2 && c.hs.is_some();
+            let (deadline, spoiled) = (c.deadline_ms, c.spoiled);
+            let out = match r {
+                Poll::Pending => None,
+                Poll::Ready(res) => {
+                    c.sfut = None; // completed future is dropped, as `.await` does
+                    let o = match res {
+                        Ok(s) => {
+                            c.sstream = Some(s);
+                            Outcome::Ok
+                        }
+                        Err(o) => o,
+                    };
+                    c.result = Some(o);
+                    Some(o)
+                }
+            };
+            // ---- T3: handshake timeout clause of the property, on the observed behaviour ----
+            match out {
+                None => {
+                    if now >= deadline {
+                        self.t3.push(format!("future {k} polled at {now} ms is still pending although its handshake timeout expired at {deadline} ms"));
+                    }
+                    if complete {
+                        self.t3.push(format!("future {k} pending although the client completed the handshake"));
+                    }
+                }
+                Some(Outcome::Timeout) => {
+                    if now < deadline {
+                        self.t3.push(format!("future {k} timed out at {now} ms, before its deadline {deadline} ms"));
+                    }
+                    if complete {
+                        self.t3.push(format!("future {k} answered Timeout although the handshake had completed (handshake result must win)"));
+                    }
+                }
+                Some(Outcome::Ok) => {
+                    if !complete {
+                        self.t3.push(format!("future {k} produced a stream although the client has not finished the handshake"));
+                    }
+                }
+                Some(Outcome::TlsErr) => {
+                    if complete || !spoiled {
+                        self.t3.push(format!("future {k} answered a TLS error for a well-behaved client (complete={complete})"));
+                    }
+                }
+            }
+            if out.is_some() {
+                self.after_release(was_pending, inprog, "completion");
+            }
+            out
+        }
+
+        fn op_poll(&mut self, k: usize) -> Option<String> {
+            if self.conns.get(k)?.sfut.is_none() {
+                return None;
+            }
+            let o = self.poll_one(k);
+            Some(format!("{} r={}", o.map(|o| o.s()).unwrap_or("pending"), self.rf()))
+        }
+
+        fn op_drop(&mut self, k: usize) -> Option<String> {
+            if self.conns.get(k)?.sfut.is_none() {
+                return None;
+            }
+            let inprog = self.alive();
+            let was_pending = self.last_ready_pending && !self.rflag.get();
+            let c = &mut self.conns[k];
+            c.sfut = None;
+            c.dropped = true;
+            self.after_release(was_pending, inprog, "drop");
+            Some(format!("ok r={}", self.rf()))
+        }
+
+        fn op_cflight(&mut self, k: usize, mode: &str) -> Option<String> {
+            let c = self.conns.get_mut(k)?;
+            if c.sfut.is_none() || c.spoiled || c.hs.is_none() {
+                return None;
+            }
+            if !["full", "part", "rest"].contains(&mode) {
+                return None;
+            }
+            // let the client react to what the server has sent so far
+            if let Some(f) = c.cfut.as_mut() {
+                let w = noop();
+                if let Poll::Ready(r) = pollu(&w, |cx| f.as_mut().poll(cx)) {
+                    c.cfut = None;
+                    match r {
+                        Ok(s) => c.cstream = Some(s),
+                        Err(e) => self.notes.push(format!("client {k} failed: {e}")),
+                    }
+                }
+            }
+            let c = self.conns.get_mut(k)?;
+            let (bytes, _) = drain(&mut c.hd);
+            if !bytes.is_empty() {
+                if c.held.is_empty() {
+                    c.produced += 1;
+                }
+                c.held.extend_from_slice(&bytes);
+            }
+            if c.held.is_empty() {
+                return Some(format!("nothing w={}", c.flag.get() as u8));
+            }
+            let n = match mode {
+                "part" => {
+                    if c.held.len() < 2 {
+                        return Some(format!("nothing w={}", c.flag.get() as u8));
+                    }
+                    c.held.len() / 2
+                }
+                _ => c.held.len(),
+            };
+            let chunk: Vec<u8> = c.held.drain(..n).collect();
+            push(c.hs.as_mut().unwrap(), &chunk);
+            if c.held.is_empty() {
+                c.delivered += 1;
+            }
+            Some(format!("sent w={}", c.flag.get() as u8))
+        }
+
+        fn op_garbage(&mut self, k: usize, kind: &str) -> Option<String> {
+            let c = self.conns.get_mut(k)?;
+            if c.sfut.is_none() || c.spoiled || c.delivered >= 2 {
+                return None;
+            }
+            let n = 20 * 1024;
+            let bytes: Vec<u8> = match kind {
+                "http" => b"GET / HTTP/1.1\r\nHost: localhost\r\n\r\n".iter().cycle().take(n).cloned().collect(),
+                "zero" => vec![0u8; n],
+                "ff" => vec![0xffu8; n],
+                "rnd" => {
+                    let mut r = Rng::new(k as u64 + 77);
+                    (0..n).map(|_| r.next() as u8).collect()
+                }
+                _ => return None,
+            };
+            push(c.hs.as_mut().unwrap(), &bytes);
+            c.spoiled = true;
+            Some(format!("ok w={}", c.flag.get() as u8))
+        }
+
+        fn op_close(&mut self, k: usize) -> Option<String> {
+            let c = self.conns.get_mut(k)?;
+            if c.sfut.is_none() || c.spoiled {
+                return None;
+            }
+            c.hs = None; // the peer goes away (both directions): the server can no longer send its own last flight
+            c.spoiled = true;
+            Some(format!("ok w={}", c.flag.get() as u8))
+        }
+
+        fn woken_list(&self) -> String {
+            let mut v: Vec<String> = self.conns.iter().enumerate().filter(|(_, c)| c.sfut.is_some() && c.flag.get()).map(|(i, _)| i.to_string()).collect();
+            if self.rflag.get() {
+                v.push("r".into());
+            }
+            format!("[{}]", v.join(","))
+        }
+
+        async fn op_advance(&mut self, ms: u64) -> String {
+            for _ in 0..ms {
+                for c in self.conns.iter_mut() {
+                    if c.sfut.is_some() && (c.flag.get() || !c.polled) {
+                        c.diligent = false; // time passes while it is owed a poll
+                    }
+                }
+                tokio::time::advance(Duration::from_millis(1)).await;
+            }
+            format!("t={} woken={}", self.now_ms(), self.woken_list())
+        }
+
+        /// executor discipline: every future is polled once when spawned and then whenever its waker has fired
+        fn sweep(&mut self, done: &mut Vec<String>) {
+            loop {
+                let ks: Vec<usize> = self.conns.iter().enumerate().filter(|(_, c)| c.sfut.is_some() && (c.flag.get() || !c.polled)).map(|(i, _)| i).collect();
+                if ks.is_empty() {
+                    break;
+                }
+                for k in ks {
+                    let (deadline, now, diligent) = (self.conns[k].deadline_ms, self.now_ms(), self.conns[k].diligent);
+                    if let Some(o) = self.poll_one(k) {
+                        if now > deadline && diligent {
+                            self.t3.push(format!("future {k}, polled whenever woken, resolved at {now} ms, later than its deadline {deadline} ms"));
+                        }
+                        done.push(format!("{k}:{}@{now}", o.s()));
+                    }
+                }
+            }
+        }
+
+        async fn op_run(&mut self, ms: u64) -> String {
+            let mut done = vec![];
+            self.sweep(&mut done);
+            for _ in 0..ms {
+                tokio::time::advance(Duration::from_millis(1)).await;
+                self.sweep(&mut done);
+            }
+            // "never later than that": a polled, still-pending future past its deadline is a violation
+            let now = self.now_ms();
+            for (k, c) in self.conns.iter().enumerate() {
+                if c.sfut.is_some() && now >= c.deadline_ms {
+                    self.t3.push(format!("future {k} (polled whenever woken) is unresolved at {now} ms, deadline {} ms", c.deadline_ms));
+                }
+            }
+            format!("t={} done=[{}] r={}", now, done.join(","), self.rf())
+        }
+
+        /// payload both ways over an accepted stream; the harness sits in the middle of the transport
+        async fn op_echo(&mut self, k: usize, n: usize, seed: u64) -> Option<String> {
+            let c = self.conns.get_mut(k)?;
+            if c.result != Some(Outcome::Ok) || c.sstream.is_none() || n > (1 << 20) {
+                return None;
+            }
+            // finish the client's side of the handshake (TLS 1.2: it still has to read the server's Finished)
+            if let Some(f) = c.cfut.as_mut() {
+                let w = noop();
+                if let Poll::Ready(r) = pollu(&w, |cx| f.as_mut().poll(cx)) {
+                    c.cfut = None;
+                    match r {
+                        Ok(s) => c.cstream = Some(s),
+                        Err(e) => {
+                            self.t3.push(format!("acceptor reported success for connection {k} but the {} client failed: {e}", c.cli));
+                            return Some("client-failed".into());
+                        }
+                    }
+                }
+            }
+            let c = self.conns.get_mut(k)?;
+            if c.cstream.is_none() || c.hs.is_none() {
+                return Some("client-not-connected".into());
+            }
+            let mut r = Rng::new(seed);
+            let up: Vec<u8> = (0..n).map(|_| r.next() as u8).collect();
+            let down: Vec<u8> = (0..n).map(|_| r.next() as u8).collect();
+            let mut ss = c.sstream.take().unwrap();
+            let mut cs = c.cstream.take().unwrap();
+            let hs = c.hs.as_mut().unwrap();
+            let hd = &mut c.hd;
+            let (up2, down2) = (up.clone(), down.clone());
+            let work = async {
+                let client = async {
+                    // write and read concurrently so that neither direction can stall the other
+                    let (mut rd, mut wr) = tokio::io::split(&mut cs);
+                    let wfut = async {
+                        wr.write_all(&up2).await?;
+                        wr.flush().await
+                    };
+                    let mut got = vec![0u8; down2.len()];
+                    let rfut = rd.read_exact(&mut got);
+                    let (a, b) = tokio::join!(wfut, rfut);
+                    a.and(b.map(|_| ())).map(|_| got)
+                };
+                let server = async {
+                    let (mut rd, mut wr) = tokio::io::split(&mut ss);
+                    let wfut = async {
+                        wr.write_all(&down2).await?;
+                        wr.flush().await
+                    };
+                    let mut got = vec![0u8; up2.len()];
+                    let rfut = rd.read_exact(&mut got);
+                    let (a, b) = tokio::join!(wfut, rfut);
+                    a.and(b.map(|_| ())).map(|_| got)
+                };
+                let both = async { tokio::join!(client, server) };
+                tokio::pin!(both);
+                let pump = tokio::io::copy_bidirectional(hs, hd);
+                tokio::pin!(pump);
+                tokio::select! {
+                    r = &mut both => Some(r),
+                    _ = &mut pump => None,
+                }
+            };
+            // virtual-time watchdog: fires only if every task is stalled (the paused clock then auto-advances)
+            let res = tokio::time::timeout(Duration::from_secs(86_400), work).await;
+            let out = match res {
+                Err(_) => {
+                    self.t3.push(format!("echo of {n} bytes on connection {k} stalled"));
+                    "stalled".to_string()
+                }
+                Ok(None) => {
+                    self.t3.push(format!("transport of connection {k} closed during echo"));
+                    "closed".to_string()
+                }
+                Ok(Some((cr, sr))) => match (cr, sr) {
+                    (Ok(cgot), Ok(sgot)) => {
+                        if cgot != down || sgot != up {
+                            self.t3.push(format!("payload of {n} bytes arrived changed on connection {k}"));
+                            "mismatch".to_string()
+                        } else {
+                            "ok".to_string()
+                        }
+                    }
+                    (a, b) => {
+                        self.t3.push(format!("echo I/O error on connection {k}: {:?} {:?}", a.err(), b.err()));
+                        "io-error".to_string()
+                    }
+                },
+            };
+            let c = self.conns.get_mut(k)?;
+            c.sstream = Some(ss);
+            c.cstream = Some(cs);
+            Some(out)
+        }
+
+        pub async fn op(&mut self, ws: &[&str]) -> String {
+            let idx = |s: &str| s.parse::<usize>().ok();
+            let r: Option<String> = match ws {
+                ["ready"] => Some(self.op_ready()),
+                ["call", lib, cli] => self.op_call(lib, cli),
+                ["poll", k] => idx(k).and_then(|k| self.op_poll(k)),
+                ["drop", k] => idx(k).and_then(|k| self.op_drop(k)),
+                ["cflight", k, mode] => idx(k).and_then(|k| self.op_cflight(k, mode)),
+                ["garbage", k, kind] => idx(k).and_then(|k| self.op_garbage(k, kind)),
+                ["close", k] => idx(k).and_then(|k| self.op_close(k)),
+                ["advance", ms] => match ms.parse::<u64>() {
+                    Ok(ms) if ms <= 20_000 => Some(self.op_advance(ms).await),
+                    _ => None,
+                },
+                ["run", ms] => match ms.parse::<u64>() {
+                    Ok(ms) if ms <= 20_000 => Some(self.op_run(ms).await),
+                    _ => None,
+                },
+                ["echo", k, n, seed] => match (idx(k), n.parse::<usize>(), seed.parse::<u64>()) {
+                    (Some(k), Ok(n), Ok(seed)) => self.op_echo(k, n, seed).await,
+                    _ => None,
+                },
+                _ => None,
+            };
+            r.unwrap_or_else(|| "bad-op".into())
+        }
+    }
+
+    /// one acceptor case = one fresh thread (the handshake counter is a thread-local) with its own
+    /// current-thread runtime whose clock starts paused
+    pub fn run_case(max: Option<usize>, tmo: Option<u64>, ops: Vec<String>, defaults: (usize, u64)) -> (Vec<String>, Vec<String>, Vec<String>) {
+        std::thread::spawn(move || {
+            let rt = tokio::runtime::Builder::new_current_thread().enable_all().start_paused(true).build().unwrap();
+            rt.block_on(async move {
+                let mut case = AccCase::new(max, tmo, defaults.0, defaults.1);
+                let mut outs = vec![];
+                for line in &ops {
+                    let ws: Vec<&str> = line.split_whitespace().collect();
+                    outs.push(case.op(&ws).await);
+                    tokio::task::yield_now().await;
+                }
+                (outs, std::mem::take(&mut case.t3), std::mem::take(&mut case.notes))
+            })
+        })
+        .join()
+        .unwrap_or_else(|_| (vec![], vec![], vec![]))
+    }
+}
+
 // ------------------------------------------------------------------------------------------------
 // generator
 // ------------------------------------------------------------------------------------------------
@@ -692,10 +1511,259 @@ fn gen_c19(a: &Args, w: &mut dyn Write) {
     }
 }
 
+
+fn gen_c18(a: &Args, w: &mut dyn Write) {
+    let mut rng = Rng::new(a.seed ^ 0xC18);
+    let thorough = a.tier == "thorough";
+    let libs = ["r", "o"];
+    let clis = ["r13", "r12", "o13", "o12"];
+    let tmos: &[u64] = if thorough { &[100, 137, 250, 1000, 3000, 5000] } else { &[100, 250, 1000, 5000] };
+    let kinds = ["http", "zero", "ff", "rnd"];
+    let sizes = [0usize, 1, 17, 1000, 16384, 16385, 40000, 65536];
+    let mut n = 0;
+    // stage i of a handshake on connection k: 0 = called+polled, 1 = half of flight 1 delivered,
+    // 2 = flight 1 complete, 3 = half of flight 2, 4 = complete (accept future resolves)
+    let stage = |w: &mut dyn Write, k: usize, upto: usize| {
+        writeln!(w, "poll {k}").unwrap();
+        let steps = ["part", "rest", "part", "rest"];
+        for st in steps.iter().take(upto) {
+            writeln!(w, "cflight {k} {st}").unwrap();
+            writeln!(w, "poll {k}").unwrap();
+        }
+    };
+    // (A) one connection, every client behaviour, both acceptors, four client stacks
+    let mut rot = 0usize;
+    for lib in libs {
+        for cli in clis {
+            for sc in 0..22 {
+                // quick: one timeout per scenario (rotating); thorough: all
+                let ts: Vec<u64> = if thorough { tmos.to_vec() } else { rot += 1; vec![tmos[rot % tmos.len()]] };
+                for t in ts {
+                    n += 1;
+                    writeln!(w, "case one-{n} kind=acc max=2 tmo={t}").unwrap();
+                    writeln!(w, "ready").unwrap();
+                    writeln!(w, "call {lib} {cli}").unwrap();
+                    match sc {
+                        0 => {
+                            stage(w, 0, 4);
+                            writeln!(w, "echo 0 {} {n}", sizes[n % sizes.len()]).unwrap();
+                            writeln!(w, "echo 0 {} {}", sizes[(n / 3) % sizes.len()], n + 1).unwrap();
+                        }
+                        1..=4 => {
+                            // stalls at stage sc-1; the executor polls whenever woken: Timeout exactly at the deadline
+                            stage(w, 0, sc - 1);
+                            writeln!(w, "run {}", t - 1).unwrap();
+                            writeln!(w, "run 1").unwrap();
+                            writeln!(w, "run 20").unwrap();
+                        }
+                        5..=8 => {
+                            stage(w, 0, sc - 5);
+                            writeln!(w, "advance {}", rng.below(t as usize)).unwrap();
+                            writeln!(w, "garbage 0 {}", kinds[(n + sc) % 4]).unwrap();
+                            writeln!(w, "poll 0").unwrap();
+                        }
+                        9..=12 => {
+                            stage(w, 0, sc - 9);
+                            writeln!(w, "advance {}", rng.below(t as usize)).unwrap();
+                            writeln!(w, "close 0").unwrap();
+                            writeln!(w, "run 0").unwrap();
+                        }
+                        13 => {
+                            // slow but in time
+                            stage(w, 0, 3);
+                            writeln!(w, "advance {}", t - 1).unwrap();
+                            writeln!(w, "cflight 0 rest").unwrap();
+                            writeln!(w, "poll 0").unwrap();
+                            writeln!(w, "echo 0 100 1").unwrap();
+                        }
+                        14 => {
+                            // the last flight arrives before the deadline but the task is only polled at the deadline
+                            stage(w, 0, 2);
+                            writeln!(w, "advance {}", t - 1).unwrap();
+                            writeln!(w, "cflight 0 full").unwrap();
+                            writeln!(w, "advance 1").unwrap();
+                            writeln!(w, "poll 0").unwrap();
+                            writeln!(w, "echo 0 5000 2").unwrap();
+                        }
+                        15 => {
+                            // timer fired, task not polled yet, then the handshake completes: the handshake wins
+                            stage(w, 0, 2);
+                            writeln!(w, "advance {}", t + 30).unwrap();
+                            writeln!(w, "cflight 0 full").unwrap();
+                            writeln!(w, "poll 0").unwrap();
+                        }
+                        16 => {
+                            stage(w, 0, 2);
+                            writeln!(w, "advance {}", t + 30).unwrap();
+                            writeln!(w, "poll 0").unwrap();
+                        }
+                        17 => {
+                            // first poll after the deadline
+                            writeln!(w, "advance {}", t + 5).unwrap();
+                            writeln!(w, "poll 0").unwrap();
+                        }
+                        18 => {
+                            // peer closes after its last flight, before the server looks
+                            stage(w, 0, 3);
+                            writeln!(w, "cflight 0 rest").unwrap();
+                            writeln!(w, "close 0").unwrap();
+                            writeln!(w, "poll 0").unwrap();
+                        }
+                        19 => {
+                            stage(w, 0, 2);
+                            writeln!(w, "drop 0").unwrap();
+                            writeln!(w, "ready").unwrap();
+                            writeln!(w, "advance {}", t + 1).unwrap();
+                        }
+                        20 => {
+                            // driven purely by the executor discipline
+                            writeln!(w, "run 0").unwrap();
+                            writeln!(w, "cflight 0 full").unwrap();
+                            writeln!(w, "run 3").unwrap();
+                            writeln!(w, "cflight 0 full").unwrap();
+                            writeln!(w, "run 3").unwrap();
+                            writeln!(w, "echo 0 65536 {n}").unwrap();
+                        }
+                        _ => {
+                            // a second flight is asked for before the server has seen the first
+                            writeln!(w, "cflight 0 full").unwrap();
+                            writeln!(w, "cflight 0 full").unwrap();
+                            writeln!(w, "poll 0").unwrap();
+                            writeln!(w, "cflight 0 part").unwrap();
+                            writeln!(w, "cflight 0 part").unwrap();
+                            writeln!(w, "poll 0").unwrap();
+                            writeln!(w, "cflight 0 rest").unwrap();
+                            writeln!(w, "run {}", t + 1).unwrap();
+                        }
+                    }
+                    writeln!(w, "ready").unwrap();
+                }
+            }
+        }
+    }
+    // (B) the gate: limits 1..3, up to 5 calls, every way a handshake can end
+    for max in 1..=3usize {
+        for ending in ["ok", "tlserr", "timeout", "drop"] {
+            for extra in 0..=(5 - max).min(2) {
+                for lib in libs {
+                    n += 1;
+                    let cli = clis[n % 4];
+                    writeln!(w, "case gate-{n} kind=acc max={max} tmo=200").unwrap();
+                    for k in 0..max {
+                        writeln!(w, "ready").unwrap();
+                        writeln!(w, "call {} {cli}", if k % 2 == 0 { lib } else { libs[(n + k) % 2] }).unwrap();
+                        writeln!(w, "poll {k}").unwrap();
+                    }
+                    writeln!(w, "ready").unwrap(); // parks
+                    for k in max..max + extra {
+                        // calls made although not ready (contract violation): the count goes past the limit
+                        writeln!(w, "call {lib} {cli}").unwrap();
+                        writeln!(w, "poll {k}").unwrap();
+                        writeln!(w, "ready").unwrap();
+                    }
+                    let total = max + extra;
+                    // end them one by one, checking readiness and the wake-up after each
+                    for k in 0..total {
+                        match ending {
+                            "ok" => {
+                                writeln!(w, "cflight {k} full").unwrap();
+                                writeln!(w, "poll {k}").unwrap();
+                                writeln!(w, "cflight {k} full").unwrap();
+                                writeln!(w, "poll {k}").unwrap();
+                            }
+                            "tlserr" => {
+                                writeln!(w, "{}", if k % 2 == 0 { format!("garbage {k} {}", kinds[k % 4]) } else { format!("close {k}") }).unwrap();
+                                writeln!(w, "poll {k}").unwrap();
+                            }
+                            "timeout" => {
+                                if k == 0 {
+                                    writeln!(w, "advance 200").unwrap();
+                                }
+                                writeln!(w, "poll {k}").unwrap();
+                            }
+                            _ => writeln!(w, "drop {k}").unwrap(),
+                        }
+                        writeln!(w, "ready").unwrap();
+                        if k == 0 && extra == 0 {
+                            // the freed slot is taken again
+                            writeln!(w, "call {lib} {cli}").unwrap();
+                            writeln!(w, "ready").unwrap();
+                            writeln!(w, "drop {total}").unwrap();
+                            writeln!(w, "ready").unwrap();
+                        }
+                    }
+                }
+            }
+        }
+    }
+    // (C) the crate's defaults: 256 handshakes per thread, 3 s
+    writeln!(w, "case defaults kind=acc max=default tmo=default").unwrap();
+    for k in 0..256 {
+        if k % 64 == 0 || k == 255 {
+            writeln!(w, "ready").unwrap();
+        }
+        writeln!(w, "call {} r13", libs[k % 2]).unwrap();
+    }
+    writeln!(w, "ready").unwrap();
+    writeln!(w, "drop 7").unwrap();
+    writeln!(w, "ready").unwrap();
+    writeln!(w, "call o o13").unwrap();
+    writeln!(w, "ready").unwrap();
+    writeln!(w, "poll 0").unwrap();
+    writeln!(w, "poll 1").unwrap();
+    writeln!(w, "advance 2999").unwrap();
+    writeln!(w, "poll 0").unwrap();
+    writeln!(w, "advance 1").unwrap();
+    writeln!(w, "poll 0").unwrap();
+    writeln!(w, "ready").unwrap();
+    writeln!(w, "run 0").unwrap();
+    writeln!(w, "ready").unwrap();
+    // (D) random schedules: up to 5 concurrent calls, limits 1..3
+    let cases = if thorough { 4000 } else { 400 };
+    for c in 0..cases {
+        let max = rng.range(1, 3);
+        let t = *rng.pick(&[100u64, 150, 300, 1000, 2500, 5000]);
+        writeln!(w, "case rnd-{c} kind=acc max={max} tmo={t}").unwrap();
+        let mut calls = 0usize;
+        let nops = rng.range(8, 40);
+        for _ in 0..nops {
+            let k = rng.below(calls.max(1));
+            match rng.below(20) {
+                0 | 1 => writeln!(w, "ready").unwrap(),
+                2 | 3 if calls < 5 => {
+                    if rng.chance(3, 4) {
+                        writeln!(w, "ready").unwrap();
+                    }
+                    writeln!(w, "call {} {}", rng.pick(&libs), rng.pick(&clis)).unwrap();
+                    calls += 1;
+                }
+                4..=7 => writeln!(w, "poll {k}").unwrap(),
+                8..=11 => writeln!(w, "cflight {k} {}", rng.pick(&["full", "full", "full", "part", "rest"])).unwrap(),
+                12 => writeln!(w, "garbage {k} {}", rng.pick(&kinds)).unwrap(),
+                13 => writeln!(w, "close {k}").unwrap(),
+                14 => writeln!(w, "drop {k}").unwrap(),
+                15 => writeln!(w, "advance {}", rng.pick(&[0u64, 1, 10, 50, 99, 100, 101, t - 1, t, t + 1, 700])).unwrap(),
+                16 | 17 => writeln!(w, "run {}", rng.pick(&[0u64, 1, 5, 50, 100, t / 2, t, t + 7])).unwrap(),
+                18 => writeln!(w, "echo {k} {} {}", rng.pick(&sizes), rng.below(1000)).unwrap(),
+                _ => writeln!(w, "{}", rng.pick(&["poll 9", "poll x", "cflight 0 half", "garbage 0 salt", "advance 20001", "run -1", "echo 0 1", "call x r13", "call r tls9", "ready now", "frob"])).unwrap(),
+            }
+        }
+        writeln!(w, "run {}", t + 1).unwrap();
+        writeln!(w, "ready").unwrap();
+    }
+    // malformed headers
+    for (i, h) in ["kind=acc max=4", "kind=acc max=301 tmo=100", "kind=acc max=02 tmo=100", "kind=acc max=1 tmo=0", "kind=acc max=1 tmo=20001", "kind=tls max=1 tmo=100", "kind=acc max=x tmo=100"].iter().enumerate() {
+        writeln!(w, "case badhdr-{i} {h}").unwrap();
+        writeln!(w, "ready").unwrap();
+        writeln!(w, "call r r13").unwrap();
+    }
+}
+
 fn gen(a: &Args) {
     let mut w = out_writer(&a.output);
     match a.prop.as_str() {
         "C19" => gen_c19(a, &mut *w),
+        "C18" => gen_c18(a, &mut *w),
         _ => {}
     }
     w.flush().unwrap();
@@ -710,14 +1778,38 @@ enum Case {
     Conn(Ctx),
 }
 
-fn run(a: &Args) {
-    silence_panics();
-    let mut rep = Report::new(&a.output);
-    let rt = tokio::runtime::Builder::new_current_thread().enable_all().build().unwrap();
+struct GroupOut {
+    real: Vec<String>,
+    t3: Vec<(String, String)>, // (prop, message)
+    notes: Vec<String>,
+}
+
+/// header of an acceptor case: (max, tmo); `None` inside = `default`
+fn parse_acc_header(rest: &[&str]) -> Option<(Option<usize>, Option<u64>)> {
+    let kv: std::collections::HashMap<&str, &str> = rest.iter().filter_map(|x| x.split_once('=')).collect();
+    if kv.get("kind").copied() != Some("acc") || rest.len() != 3 {
+        return None;
+    }
+    let max = match kv.get("max").copied()? {
+        "default" => None,
+        m => Some(m.parse::<usize>().ok().filter(|m| *m <= 300 && m.to_string() == *kv.get("max").unwrap())?),
+    };
+    let tmo = match kv.get("tmo").copied()? {
+        "default" => None,
+        t => Some(t.parse::<u64>().ok().filter(|x| *x >= 1 && *x <= 20_000 && x.to_string() == t)?),
+    };
+    Some((max, tmo))
+}
+
+fn run_conn_group(rt: &tokio::runtime::Runtime, lines: &[String]) -> GroupOut {
+    let mut rep_t3: Vec<(String, String)> = vec![];
+    let mut notes = vec![];
+    let mut real = vec![];
     let mut case = Case::None;
-    for line in in_lines(&a.input) {
+    // a scratch report collects T3 messages of run_conn_op
+    for line in lines {
         let ws: Vec<&str> = line.split_whitespace().collect();
-        let real: String = match ws.as_slice() {
+        let r: String = match ws.as_slice() {
             ["case", _name, rest @ ..] => {
                 case = Case::None;
                 let kv: std::collections::HashMap<&str, &str> = rest.iter().filter_map(|x| x.split_once('=')).collect();
@@ -741,7 +1833,7 @@ fn run(a: &Args) {
                                         "ok".into()
                                     }
                                     Err(e) => {
-                                        rep.note(&format!("cannot set up endpoints: {e}"));
+                                        notes.push(format!("cannot set up endpoints: {e}"));
                                         "env-error".into()
                                     }
                                 }
@@ -754,14 +1846,107 @@ fn run(a: &Args) {
             }
             ["conn", ..] => match &case {
                 Case::Conn(cx) => match parse_conn_op(cx, &ws) {
-                    Some(op) => run_conn_op(&rt, cx, &op, &mut rep),
+                    Some(op) => {
+                        let mut sink = T3Sink::default();
+                        let out = run_conn_op(rt, cx, &op, &mut sink);
+                        rep_t3.extend(sink.t3.into_iter().map(|m| ("C19".to_string(), m)));
+                        notes.extend(sink.notes);
+                        out
+                    }
                     None => "bad-op".into(),
                 },
                 _ => "bad-op".into(),
             },
             _ => "bad-op".into(),
         };
-        rep.obs(&line, &real);
+        real.push(r);
+    }
+    GroupOut { real, t3: rep_t3, notes }
+}
+
+#[derive(Default)]
+pub struct T3Sink {
+    pub t3: Vec<String>,
+    pub notes: Vec<String>,
+}
+impl T3Sink {
+    pub fn t3(&mut self, _prop: &str, m: &str) {
+        self.t3.push(m.to_string())
+    }
+    pub fn note(&mut self, m: &str) {
+        self.notes.push(m.to_string())
+    }
+}
+
+/// the crate's documented defaults (used only by the oracle's bookkeeping for `default` cases)
+const DOC_DEFAULT_MAX: usize = 256;
+const DOC_DEFAULT_TMO_MS: u64 = 3000;
+
+fn run_acc_group(lines: &[String], hdr: (Option<usize>, Option<u64>)) -> GroupOut {
+    let ops: Vec<String> = lines[1..].to_vec();
+    let n = ops.len();
+    let (mut outs, t3, notes) = acc::run_case(hdr.0, hdr.1, ops, (DOC_DEFAULT_MAX, DOC_DEFAULT_TMO_MS));
+    let mut t3: Vec<(String, String)> = t3.into_iter().map(|m| ("C18".to_string(), m)).collect();
+    if outs.len() != n {
+        outs = vec!["panic".to_string(); n];
+        t3.push(("C18".into(), "the acceptor case panicked".into()));
+    }
+    let mut real = vec!["ok".to_string()];
+    real.extend(outs);
+    GroupOut { real, t3, notes }
+}
+
+fn run(a: &Args) {
+    silence_panics();
+    let mut rep = Report::new(&a.output);
+    let rt = tokio::runtime::Builder::new_current_thread().enable_all().build().unwrap();
+    let lines: Vec<String> = in_lines(&a.input).collect();
+    // split into cases
+    let mut groups: Vec<(usize, usize)> = vec![];
+    let mut start = 0;
+    for (i, l) in lines.iter().enumerate() {
+        if l.split_whitespace().next() == Some("case") && i > start {
+            groups.push((start, i));
+            start = i;
+        }
+    }
+    if start < lines.len() {
+        groups.push((start, lines.len()));
+    }
+    let header = |g: &(usize, usize)| -> Option<(Option<usize>, Option<u64>)> {
+        let ws: Vec<&str> = lines[g.0].split_whitespace().collect();
+        match ws.as_slice() {
+            ["case", _name, rest @ ..] => parse_acc_header(rest),
+            _ => None,
+        }
+    };
+    let mut outs: Vec<Option<GroupOut>> = groups.iter().map(|_| None).collect();
+    // acceptor cases that rely on the crate's default limit run first: the limit is process-global
+    for (gi, g) in groups.iter().enumerate() {
+        if let Some((None, tmo)) = header(g) {
+            outs[gi] = Some(run_acc_group(&lines[g.0..g.1], (None, tmo)));
+        }
+    }
+    for (gi, g) in groups.iter().enumerate() {
+        if outs[gi].is_some() {
+            continue;
+        }
+        outs[gi] = Some(match header(g) {
+            Some(h) => run_acc_group(&lines[g.0..g.1], h),
+            None => run_conn_group(&rt, &lines[g.0..g.1]),
+        });
+    }
+    for (gi, g) in groups.iter().enumerate() {
+        let o = outs[gi].take().unwrap();
+        for (k, line) in lines[g.0..g.1].iter().enumerate() {
+            rep.obs(line, o.real.get(k).map(|s| s.as_str()).unwrap_or("panic"));
+        }
+        for (p, m) in &o.t3 {
+            rep.t3(p, m);
+        }
+        for m in &o.notes {
+            rep.note(m);
+        }
     }
     rep.finish();
 }
